@@ -67,6 +67,11 @@ type unmarshalable struct {
 
 var nilMap map[string]int
 
+// panicMarshal is a result whose JSON encoder panics (a bug in application code reached while the reply is written).
+type panicMarshal struct{ p *int }
+
+func (m *panicMarshal) MarshalJSON() ([]byte, error) { return []byte(fmt.Sprint(*m.p)), nil }
+
 func behave(mode, rid string) (interface{}, *erpc.Status) {
 	switch mode {
 	case "status":
@@ -97,6 +102,9 @@ func behave(mode, rid string) (interface{}, *erpc.Status) {
 		return nil, erpc.NewStatus(erpc.CodeConnClosed, "backend connection closed", rid)
 	case "badresult":
 		return &unmarshalable{C: make(chan int)}, nil
+	case "panicresult":
+		// the handler returns normally; its result panics while it is encoded into the reply
+		return &panicMarshal{}, nil
 	case "bigresult":
 		return bytes.Repeat([]byte{'B'}, readLimit+4096), nil
 	}
@@ -189,7 +197,7 @@ type frame struct {
 }
 
 var callKinds = []string{"call-ok", "call-ok", "call-ok", "call-ctl", "call-typed", "call-status", "call-panic-string", "call-panic-error", "call-panic-status", "call-panic-nil",
-	"call-slow", "call-status-fw", "call-badresult", "call-bigresult", "call-unknown-route", "call-empty-route", "call-undecodable", "call-wrong-type", "call-unknown-codec",
+	"call-slow", "call-status-fw", "call-badresult", "call-panicresult", "call-bigresult", "call-unknown-route", "call-empty-route", "call-undecodable", "call-wrong-type", "call-unknown-codec",
 	"call-veto-PostReadCallHeader", "call-veto-PreReadCallBody", "call-veto-PostReadCallBody",
 	"call-wstage-PreWriteReply:panic", "call-wstage-PreWriteReply:error", "call-wstage-PostWriteReply:panic", "call-wstage-PostWriteReply:error"}
 var pushKinds = []string{"push-ok", "push-ok", "push-unknown-route", "push-panic", "push-veto-PostReadPushHeader", "push-veto-PostReadPushBody", "push-empty-route"}
